@@ -111,7 +111,10 @@ class Gen:
     def op(self, in_dq):
         while True:
             p = self.op1(in_dq)
-            if "  " not in p.text:
+            # not generated: runs of blanks inside ${…} (C06-9, another property's finding) and operands that are
+            # only a quoted null (`${v:+""}`): bash 5.2 itself drops neighbouring quoted nulls there
+            # (`s="a "; set -- ""$s${v:+""}` gives 1 argument, `""$s""` gives 3)
+            if "  " not in p.text and '""' not in p.text and "''" not in p.text:
                 return p
 
     def op1(self, in_dq):
@@ -296,15 +299,18 @@ def clause_of(w, ifs, args, brush, bash, impl, spec):
         # an unmatched pattern starting with '.' in brush's list where bash has the dot-files it matches,
         # in a word where an empty quoted/empty-valued piece precedes the dot
         import fnmatch
-        fixed = []
-        for x in brush:
-            if x.startswith(".") and any(c in x for c in "*?["):
-                m = sorted(n for n in DIRNAMES if fnmatch.fnmatchcase(n, x))
+        import itertools
+        cands = [i for i, x in enumerate(brush) if x.startswith(".") and any(c in x for c in "*?[")][:5]
+        for pick in itertools.product([False, True], repeat=len(cands)):
+            if not any(pick):
+                continue
+            chosen = {i for i, p in zip(cands, pick) if p}
+            fixed = []
+            for i, x in enumerate(brush):
+                m = sorted(n for n in DIRNAMES if fnmatch.fnmatchcase(n, x)) if i in chosen else []
                 fixed += m if m else [x]
-            else:
-                fixed.append(x)
-        if fixed == bash and fixed != brush:
-            return "leading_empty_quoted_piece_hides_dotfiles"
+            if fixed == bash:
+                return "leading_empty_quoted_piece_hides_dotfiles"
     return None
 
 
